@@ -1,0 +1,52 @@
+//go:build verif
+
+package pgdump
+
+import (
+	"fmt"
+	"sort"
+	"strings"
+)
+
+// VerifPackageTables renders the package-level lookup tables (type names, array element
+// types, fixed lengths, element alignments, catalog names, WAL level names). They are
+// constants of the program: no call may add to or change them, and the verification
+// harness compares this rendering before and after the operations it runs.
+func VerifPackageTables() string {
+	var parts []string
+	intStr := func(name string, m map[int]string) {
+		keys := make([]int, 0, len(m))
+		for k := range m {
+			keys = append(keys, k)
+		}
+		sort.Ints(keys)
+		var sb strings.Builder
+		for _, k := range keys {
+			fmt.Fprintf(&sb, "%d=%s,", k, m[k])
+		}
+		parts = append(parts, fmt.Sprintf("%s[%d]{%s}", name, len(m), sb.String()))
+	}
+	intInt := func(name string, m map[int]int) {
+		keys := make([]int, 0, len(m))
+		for k := range m {
+			keys = append(keys, k)
+		}
+		sort.Ints(keys)
+		var sb strings.Builder
+		for _, k := range keys {
+			fmt.Fprintf(&sb, "%d=%d,", k, m[k])
+		}
+		parts = append(parts, fmt.Sprintf("%s[%d]{%s}", name, len(m), sb.String()))
+	}
+	intStr("typeNames", typeNames)
+	intInt("arrayElemTypes", arrayElemTypes)
+	intInt("fixedLengths", fixedLengths)
+	intInt("elemAligns", elemAligns)
+	cat := make(map[int]string, len(SystemCatalogNames))
+	for k, v := range SystemCatalogNames {
+		cat[int(k)] = v
+	}
+	intStr("SystemCatalogNames", cat)
+	parts = append(parts, "walLevelNames{"+strings.Join(walLevelNames, ",")+"}")
+	return strings.Join(parts, ";")
+}
